@@ -1228,6 +1228,20 @@ class SymEx:
                 x = x.ev(Ev('write', loc=('sub', ('var', t.value.id), k), value=v, how=how, site=self.site(node), fn=self.fn.qn, old=old,
                             delta=delta, local=True))
             return x
+        if isinstance(t, ast.Attribute) and isinstance(t.value, ast.Name) and t.value.id in st.env and st.env[t.value.id][0] == 'new' \
+                and not st.env[t.value.id][1].startswith('enum:'):
+            # rec.field = v on a record built on this path and held in a local: the local now denotes the updated record (records are values here).
+            # When the class routes the assignment through a property setter, what the setter does to the record is not followed: the local becomes opaque.
+            rec = st.env[t.value.id]
+            c_ = self.M.cls(rec[1])
+            x = st.copy()
+            if c_ is not None and c_.lookup(t.attr + '@setter') is not None:
+                x.env[t.value.id] = ('havoc', '%s.%s=' % (t.value.id, t.attr), self.site(node))
+            else:
+                x.env[t.value.id] = ('new', rec[1], tuple(sorted([(k_, v_) for k_, v_ in rec[2] if k_ != t.attr] + [(t.attr, v)])))
+            if not silent:
+                x = x.ev(Ev('write', loc=('attr', ('var', t.value.id), t.attr), value=v, how=how, site=self.site(node), fn=self.fn.qn, old=old, delta=delta, local=True))
+            return x
         if isinstance(t, ast.Subscript) and isinstance(t.value, ast.Attribute) and isinstance(t.value.value, ast.Name) and t.value.value.id in st.env:
             # obj.field[k] = v where obj.field was bound, earlier on this path, to a container built here: the location is the field's element
             # (not an element of the container literal), and the field now holds the container with that element set
@@ -2091,7 +2105,8 @@ class SymEx:
         fn = self.fn
         site = self.site(e)
         bound = self.bind(init, args, kwargs) if init else {}
-        if (c.name in self.value_classes and init is not None) or self.M.is_record_init(c):
+        private_helper = c.name.startswith('_') and not c.name.startswith('__') and init is not None and self.frames and c.path == self.fn.path and not self.suppress
+        if (c.name in self.value_classes and init is not None) or self.M.is_record_init(c) or private_helper:
             return self.construct(c, bound, st, e)
         rf = self.M.record_fields(c, c.name in self.value_classes)
         if rf is not None and not any(a[0] == 'starred' for a in args):
